@@ -294,6 +294,40 @@ def case_oracle(case, *, cexec=False):
         msg = _same(vd, vi)
         if msg:
             return Failure("inlined-value", msg, "inline_calls"), info
+        # the code generator's own preprocessing (name check, inlining,
+        # lowering) accepts the graph with its calls tagged for inlining
+        try:
+            from pytato.codegen import preprocess
+            from pvf.cexec import c_target
+            preprocess(pt.tag_all_calls_to_be_inlined(
+                pt.transform.deduplicate(gt)), c_target())
+        except Exception as e:  # noqa: BLE001
+            return Failure("preprocess-exception", f"{type(e).__name__}: {e}",
+                           exc_site(e)), info
+        # one call site tagged for inlining by hand beforehand: the rest must
+        # still be found and inlined
+        from pytato.function import Call
+        from pytato.tags import InlineCallTag
+        from pvf import reflect
+        gdd = pt.transform.deduplicate(gt)
+        calls = [n for n in reflect.topo_order(gdd) if isinstance(n, Call)]
+        if len(calls) >= 2 or info["call_nodes"] > len(calls):
+            first = calls[-1]        # outermost in topological order
+            try:
+                pre = pt.transform.map_and_copy(
+                    gdd, lambda x: x.tagged(InlineCallTag())
+                    if x is first else x)
+                gi2 = pt.inline_calls(pt.tag_all_calls_to_be_inlined(pre))
+            except Exception as e:  # noqa: BLE001
+                return Failure("inline-exception", "one call tagged by hand "
+                               f"first: {type(e).__name__}: {e}", exc_site(e)
+                               ), info
+            left = _has_calls(gi2)
+            if left:
+                return Failure("calls-left-after-inlining", f"one call tagged "
+                               f"by hand first: {left} Call/NamedCallResult "
+                               "nodes remain", "inline_calls"), info
+            info["pretagged"] = True
         if cexec:
             from pvf.cexec import HarnessError, generate_and_compile
             try:
